@@ -5,14 +5,16 @@
 #include "bklib.hpp"
 #include <lagrangehalfc_arithmetic.h>
 #include <sys/wait.h>
+#include <malloc.h>
+#include <polynomials_arithmetic.h>
 #include <thread>
 #include <atomic>
 #include <chrono>
 using namespace vf;
 
 static const int N = 1024, NIN = 8;
-enum { OP_BOOT = 11, OP_FFTPROD = 12, OP_LAGR = 13, OP_CHURN = 14, OP_YIELD = 15, OP_RESPAWN = 16, OP_WOKS = 17, OP_BOOTK = 18 };
-static const char *opname(int k) { return k <= 10 ? GATES[k].name : k == OP_BOOT ? "bootstrap_FFT" : k == OP_FFTPROD ? "fft-product" : k == OP_LAGR ? "lagrange-ops" : k == OP_CHURN ? "heap-churn" : k == OP_YIELD ? "yield" : k == OP_RESPAWN ? "respawn" : k == OP_BOOTK ? "bootstrap_FFT-under-another-key-set" : "bootstrap_woKS_FFT"; }
+enum { OP_BOOT = 11, OP_FFTPROD = 12, OP_LAGR = 13, OP_CHURN = 14, OP_YIELD = 15, OP_RESPAWN = 16, OP_WOKS = 17, OP_BOOTK = 18, OP_MODSWITCH = 19, OP_KARATSUBA = 20 };
+static const char *opname(int k) { return k <= 10 ? GATES[k].name : k == OP_BOOT ? "bootstrap_FFT" : k == OP_FFTPROD ? "fft-product" : k == OP_LAGR ? "lagrange-ops" : k == OP_CHURN ? "heap-churn" : k == OP_YIELD ? "yield" : k == OP_RESPAWN ? "respawn" : k == OP_BOOTK ? "bootstrap_FFT-under-another-key-set" : k == OP_MODSWITCH ? "modulus-switch-loop-other-M" : k == OP_KARATSUBA ? "karatsuba-product" : "bootstrap_woKS_FFT"; }
 
 struct Shared { KeySet *K; LweSample *in; BKey *extra[2]; };
 
@@ -48,6 +50,26 @@ static uint64_t do_op(const Shared &S, const int64_t *op) {
         delete_LweSample(x); delete_LweSample(r);
         return h;
     }
+    if (kind == OP_MODSWITCH) { // rounding functions with other message-space sizes on private data, while other threads bootstrap with M = 2N
+        static const int32_t MS[] = {8, 3, 1000, 4096, 2, 32768};
+        int32_t M = MS[op[1] % 6];
+        SplitMix rr((uint64_t)op[2]);
+        uint64_t h = 17;
+        for (int q = 0; q < 20000; q++) { int32_t ph = rr.i32(); int32_t r = modSwitchFromTorus32(ph, M); int32_t ap = approxPhase(ph, M); h = (h ^ (uint32_t)r) * 0x100000001b3ull; h = (h ^ (uint32_t)ap) * 0x100000001b3ull; }
+        return h;
+    }
+    if (kind == OP_KARATSUBA) { // exact (non-FFT) product of thread-private polynomials
+        IntPolynomial *a = new_IntPolynomial(N); TorusPolynomial *b = new_TorusPolynomial(N), *r = new_TorusPolynomial(N);
+        fill_int(a->coefs, N, 100000, 0, (uint64_t)op[1]); fill_torus((uint32_t *)b->coefsT, N, 0, (uint64_t)op[1] + 3); fill_torus((uint32_t *)r->coefsT, N, 0, 5);
+        uint64_t h = 19;
+        for (int q = 0; q < 24; q++) { // a few dozen products so that concurrent threads overlap inside the routine
+            a->coefs[q] += q;
+            if ((op[2] + q) & 1) torusPolynomialMultKaratsuba(r, a, b); else torusPolynomialAddMulRKaratsuba(r, a, b);
+            h = hash_words(r->coefsT, N * 4, h);
+        }
+        delete_IntPolynomial(a); delete_TorusPolynomial(b); delete_TorusPolynomial(r);
+        return h;
+    }
     if (kind == OP_FFTPROD) { // product of thread-private polynomials, unrelated to the key
         IntPolynomial *a = new_IntPolynomial(N); TorusPolynomial *b = new_TorusPolynomial(N), *r = new_TorusPolynomial(N);
         fill_int(a->coefs, N, 512, (int)(op[2] % 4), (uint64_t)op[1]); fill_torus((uint32_t *)b->coefsT, N, (int)(op[3] % 4), (uint64_t)op[1] + 1);
@@ -77,7 +99,7 @@ static uint64_t do_op(const Shared &S, const int64_t *op) {
     if (kind == OP_YIELD) { if (op[1] % 3 == 0) std::this_thread::yield(); else std::this_thread::sleep_for(std::chrono::microseconds(op[1] % 2000)); return 0; }
     return 0;
 }
-static bool has_output(int kind) { return kind <= 13 || kind == OP_WOKS || kind == OP_BOOTK; }
+static bool has_output(int kind) { return kind <= 13 || kind == OP_WOKS || kind == OP_BOOTK || kind == OP_MODSWITCH || kind == OP_KARATSUBA; }
 
 static std::map<std::vector<int64_t>, uint64_t> g_ref;
 // Reference = the operation alone in a *fresh process image* (forked from a parent that has never evaluated anything) on a fresh thread:
@@ -92,6 +114,7 @@ static uint64_t reference(const Shared &S, const std::vector<int64_t> &op) {
     pid_t pid = fork();
     if (pid == 0) {
         close(fd[0]);
+        mallopt(M_PERTURB, 0x11); // reference and workload processes fill fresh / freed heap blocks with different bytes: an uninitialised read cannot agree by accident
         uint64_t hh = 0;
         std::thread t([&]() { hh = do_op(S, op.data()); });
         t.join();
@@ -151,6 +174,7 @@ static std::string run_case(const J &c, std::string &sig) {
         for (int t = 0; t < T; t++) { uint64_t cnt = 0; if (pos + 8 <= buf.size()) memcpy(&cnt, buf.data() + pos, 8); pos += 8; for (uint64_t q = 0; q < cnt && pos + 8 <= buf.size(); q++) { uint64_t h; memcpy(&h, buf.data() + pos, 8); pos += 8; out[t].push_back(h); } }
     } else {
     close(wfd[0]);
+    mallopt(M_PERTURB, 0xC3);
     alarm(240); // a workload that does not finish is inconclusive (time is never an oracle): SIGALRM ends the child
     std::atomic<int> ready(0); std::atomic<bool> go(false);
     std::atomic<bool> stop_aux(false);
@@ -222,7 +246,7 @@ int main(int argc, char **argv) {
         if (T > maxT) T = maxT;
         c.set("lambda", lambda).set("keyseed", kseed).set("seed", *genSeed()).set("key_on_thread", *rc::gen::weightedElement<int>({{3, 0}, {1, 1}})).set("keygen_thread", *rc::gen::weightedElement<int>({{3, 0}, {1, 1}}));
         J threads = J::array();
-        auto opgen = rc::gen::map(rc::gen::tuple(rc::gen::weightedElement<int>({{6, 0}, {1, 1}, {2, 2}, {3, 3}, {1, 4}, {1, 5}, {1, 6}, {1, 7}, {1, 8}, {1, 9}, {4, 10}, {3, OP_BOOT}, {2, OP_WOKS}, {4, OP_BOOTK}, {4, OP_FFTPROD}, {3, OP_LAGR}, {4, OP_CHURN}, {2, OP_YIELD}, {2, OP_RESPAWN}}),
+        auto opgen = rc::gen::map(rc::gen::tuple(rc::gen::weightedElement<int>({{6, 0}, {1, 1}, {2, 2}, {3, 3}, {1, 4}, {1, 5}, {1, 6}, {1, 7}, {1, 8}, {1, 9}, {4, 10}, {3, OP_BOOT}, {2, OP_WOKS}, {4, OP_BOOTK}, {2, OP_MODSWITCH}, {3, OP_KARATSUBA}, {4, OP_FFTPROD}, {3, OP_LAGR}, {4, OP_CHURN}, {2, OP_YIELD}, {2, OP_RESPAWN}}),
                                                  rng<int>(0, 100000), rng<int>(0, 7), rng<int>(0, 7)),
                                   [](std::tuple<int, int, int, int> t) { return std::vector<int64_t>{std::get<0>(t), std::get<1>(t), std::get<2>(t), std::get<3>(t)}; });
         int budget = T <= 4 ? maxops : T <= 16 ? std::max(2, maxops - 1) : 2;
